@@ -58,7 +58,7 @@ def dep5_tokens(g):
     return out
 
 
-def kclasses(ts, toml_globs):
+def kclasses(ts, toml_globs, broad=False):
     """Known-finding classes of a dep5 glob: the converter's own defects plus those the
     REUSE.toml matcher contributes for the converted glob (C05 findings)."""
     out = {}
@@ -70,7 +70,7 @@ def kclasses(ts, toml_globs):
         tt = C05.tokens(tg)
         if tt is None:
             continue
-        for k, dirs in C05.kclasses(tt).items():
+        for k, dirs in C05.kclasses(tt, broad=broad).items():
             out.setdefault("matcher(C05):" + k, set()).update(dirs)
     return out
 
@@ -148,12 +148,14 @@ def run(ctx):
                 invalid += 1
             else:
                 globs.append(g)
+    random_globs = set()
     for _ in range(n_random):
         g = "".join(rnd.choice(alphabet + "**/b-") for _ in range(rnd.randint(maxlen + 1, 10)))
         if dep5_tokens(g) is None:
             invalid += 1
         else:
             globs.append(g)
+            random_globs.add(g)
     ctx.extra["globs_checked"] = len(globs)
     ctx.extra["globs_invalid_skipped"] = invalid
     replayed = 0
@@ -175,7 +177,7 @@ def run(ctx):
             st = ctx.violation(f"crash:{type(e).__name__}", f"valid dep5 glob {g!r} cannot be converted/re-read: {e!r}", {"paragraphs": para, "path": "a"})
             ctx.ob(f"dep5 glob {g!r}", "RZ3", st if st == "violated" else "known")
             continue
-        kin = kclasses(ts, sorted(item.paths))
+        kin = kclasses(ts, sorted(item.paths), broad=g in random_globs)
         for dom_name, dom in (("nolf", D_NOLF), ("lf", D_LF)):
             verdict, detail = "holds", None
             t0, n0 = time.time(), q.n
